@@ -368,9 +368,63 @@ fn is_forward(f: &FnDump) -> bool {
     })
 }
 
+/// Tail-position discipline of one compiled function: the kinds of its call instructions (pc order)
+/// against the `TailPos` model (correspondence) and against the property's own rule (oracle).
+fn tailpos_fn(f: &FnDump, what: &str, replay: &Value, t: &mut TaskOut) {
+    let real: Vec<bool> = f
+        .instrs
+        .iter()
+        .filter_map(|i| match i {
+            Instruction::TailCall(_) => Some(true),
+            Instruction::Call(_) => Some(false),
+            _ => None,
+        })
+        .collect();
+    let (shape, expected) = match &f.tail {
+        Some(x) => x,
+        None => {
+            if !real.is_empty() {
+                t.count("tailpos:skipped:call-count");
+            }
+            return;
+        }
+    };
+    if real.is_empty() {
+        return;
+    }
+    let payload: Vec<&str> = real.iter().map(|b| if *b { "T" } else { "N" }).collect();
+    t.cases.push((format!("tailpos {}", shape), format!("({})", payload.join(" "))));
+    t.count("tailpos:functions");
+    for (k, ((want, ctx), got)) in expected.iter().zip(real.iter()).enumerate() {
+        if *want {
+            t.count(&format!("tailpos:tail-call-in:{}", ctx));
+        }
+        if *want && !*got {
+            t.fail(
+                &format!("tail-position-lost:{}", ctx),
+                &format!("call #{} of `{}` ({}) is in tail position ({}) but is compiled as Call, not TailCall: the frame is not reused", k, f.name, what, ctx),
+                replay.clone(),
+            );
+        } else if !*want && *got {
+            t.fail(
+                &format!("tail-call-in-non-tail-position:{}", ctx),
+                &format!("call #{} of `{}` ({}) is not in tail position ({}) but is compiled as TailCall", k, f.name, what, ctx),
+                replay.clone(),
+            );
+        }
+    }
+    if expected.iter().any(|e| e.0) && expected.iter().any(|e| !e.0) {
+        use std::hash::{Hash, Hasher};
+        let mut h = std::collections::hash_map::DefaultHasher::new();
+        shape.hash(&mut h);
+        t.classes.push(format!("tailpos:{:016x}", h.finish()));
+    }
+}
+
 /// Correspondence case + oracle for every function of a compiled program.
 fn verify_fns(fns: &[FnDump], what: &str, replay: &Value, t: &mut TaskOut) {
     for f in fns {
+        tailpos_fn(f, what, replay, t);
         match heights(f) {
             Heights::Unsupported(w) => t.count(&format!("verify:skipped:{}", w)),
             Heights::Bad(pc, w) => {
@@ -477,18 +531,27 @@ fn threshold(name: &str, src: &str, cap: u32) -> Result<Option<u32>, String> {
 fn task_stack(family: &str, n: u64, known_threshold: Option<u32>, seed: u64, t: &mut TaskOut) {
     let src = families::source(family, n);
     let name = "fam";
+    let fp_family = family.split(':').next().unwrap().to_string();
     let replay = json!({"task": "stack", "family": family, "n": n, "source": src});
-    let fam = families::STACK_FAMILIES.iter().find(|f| f.name == family).unwrap();
+    let fam_tail = families::is_tail(family);
     // unlimited run: the value and the dump
     let base = match run_fresh(name, &src, &Limits { hook: true, ..Default::default() }) {
         Ok(o) => o,
         Err(e) => {
-            t.fail(&format!("family-does-not-compile:{}", family), &e, replay);
+            t.fail(&format!("family-does-not-compile:{}", fp_family), &e, replay);
             return;
         }
     };
-    if base.outcome != Outcome::Ok(families::expected_value(family, n)) {
-        t.fail(&format!("wrong-result:{}", family), &format!("expected {} got {:?}", families::expected_value(family, n), base.outcome), replay.clone());
+    let expected = match (families::expected_value(family, n), &base.outcome) {
+        (Some(v), _) => v,
+        (None, Outcome::Ok(v)) => v.clone(),
+        (None, o) => {
+            t.fail(&format!("family-fails:{}:{}", fp_family, o.class()), &format!("{:?}", o), replay.clone());
+            return;
+        }
+    };
+    if base.outcome != Outcome::Ok(expected.clone()) {
+        t.fail(&format!("wrong-result:{}", fp_family), &format!("expected {} got {:?}", expected, base.outcome), replay.clone());
         return;
     }
     verify_fns(&base.fns, family, &replay, t);
@@ -497,7 +560,7 @@ fn task_stack(family: &str, n: u64, known_threshold: Option<u32>, seed: u64, t: 
         None => match threshold(name, &src, 1 << 27) {
             Ok(x) => x,
             Err(e) => {
-                t.fail(&format!("limit-outcome:{}", family), &e, replay.clone());
+                t.fail(&format!("limit-outcome:{}", fp_family), &e, replay.clone());
                 return;
             }
         },
@@ -513,7 +576,7 @@ fn task_stack(family: &str, n: u64, known_threshold: Option<u32>, seed: u64, t: 
     let (tbl, evs) = match scripted {
         Ok(x) => x,
         Err(e) => {
-            t.count(&format!("stack:script-unavailable:{}", family));
+            t.count(&format!("stack:script-unavailable:{}", fp_family));
             t.samples.push(json!({"script-unavailable": family, "why": e.0}));
             t.obs = json!({"family": family, "n": n, "threshold": thr, "peak_frames": base.peak_frames});
             return;
@@ -533,14 +596,14 @@ fn task_stack(family: &str, n: u64, known_threshold: Option<u32>, seed: u64, t: 
         let o = match stack_run(name, &src, l, true) {
             Ok(o) => o,
             Err(e) => {
-                t.fail(&format!("limit-outcome:{}", family), &e, replay.clone());
+                t.fail(&format!("limit-outcome:{}", fp_family), &e, replay.clone());
                 continue;
             }
         };
         let payload = match &o.outcome {
             Outcome::Ok(v) => {
-                if *v != families::expected_value(family, n) {
-                    t.fail(&format!("wrong-result-under-limit:{}", family), &format!("stack limit {}: {}", l, v), replay.clone());
+                if *v != expected {
+                    t.fail(&format!("wrong-result-under-limit:{}", fp_family), &format!("stack limit {}: {}", l, v), replay.clone());
                 }
                 if l == thr {
                     peak_at_thr = o.peak_frames;
@@ -555,16 +618,16 @@ fn task_stack(family: &str, n: u64, known_threshold: Option<u32>, seed: u64, t: 
             }
             other => {
                 // the property: completes or fails with the corresponding error
-                t.fail(&format!("limit-outcome:{}:{}", family, other.class()), &format!("stack limit {} on {}: {:?}", l, family, other), replay.clone());
+                t.fail(&format!("limit-outcome:{}:{}", fp_family, other.class()), &format!("stack limit {} on {}: {:?}", l, family, other), replay.clone());
                 format!("(unexpected {})", gv::quote(&other.class()))
             }
         };
         t.cases.push((format!("stack {} ({}) ({})", l, tbl, evs), payload));
-        t.count(&format!("stack:{}:{}", family, if o.outcome.class() == "ok" { "ok" } else { "overflow" }));
+        t.count(&format!("stack:{}:{}", fp_family, if o.outcome.class() == "ok" { "ok" } else { "overflow" }));
         t.classes.push(format!("stack:{}:n={}:{}", family, n, if l >= thr { "ok" } else { "overflow" }));
     }
-    if fam.tail && base.peak_frames != peak_at_thr && peak_at_thr != 0 {
-        t.fail(&format!("peak-frames-depend-on-limit:{}", family), "frame count differs with and without a limit", replay.clone());
+    if fam_tail && base.peak_frames != peak_at_thr && peak_at_thr != 0 {
+        t.fail(&format!("peak-frames-depend-on-limit:{}", fp_family), "frame count differs with and without a limit", replay.clone());
     }
     t.obs = json!({"family": family, "n": n, "threshold": thr, "peak_frames": base.peak_frames});
 }
@@ -958,6 +1021,30 @@ fn main() {
         probe(&raw[1..]);
         return;
     }
+    if raw.first().map(|s| s.as_str()) == Some("--probe-random") {
+        let k: u64 = raw[1].parse().unwrap();
+        let mut bad = 0;
+        let mut used_all: std::collections::BTreeMap<&str, u64> = Default::default();
+        for seed in 0..k {
+            let (src, used) = families::random_source(seed, 30);
+            for u in used {
+                *used_all.entry(u).or_default() += 1;
+            }
+            match run_fresh("r", &src, &Limits::default()) {
+                Ok(o) if matches!(o.outcome, Outcome::Ok(_)) => (),
+                Ok(o) => {
+                    bad += 1;
+                    println!("seed {} outcome {:?}\n{}", seed, o.outcome, src);
+                }
+                Err(e) => {
+                    bad += 1;
+                    println!("seed {} compile error {}\n{}", seed, e, src);
+                }
+            }
+        }
+        println!("{} bad of {}; contexts {:?}", bad, k, used_all);
+        return;
+    }
     if raw.first().map(|s| s.as_str()) == Some("--probe-family") {
         let n: u64 = raw[2].parse().unwrap();
         let src = families::source(&raw[1], n);
@@ -1033,9 +1120,11 @@ fn main() {
 
     // ---- stack families: thresholds at small sizes (bisected), then constancy for tail families
     let small: &[u64] = if thorough { &[0, 1, 2, 3, 4, 5, 8, 13, 40, 100, 333, 1000, 3000] } else { &[0, 1, 2, 3, 7, 40, 200, 1000] };
+    let fams = families::stack_families(seed, if thorough { 60 } else { 12 });
+    let light: &[u64] = &[2, 40, 1000];
     let mut tasks = vec![];
-    for f in families::STACK_FAMILIES {
-        for &n in small {
+    for f in &fams {
+        for &n in if f.light { light } else { small } {
             tasks.push(json!({"t": "stack", "family": f.name, "n": n, "seed": seed}));
         }
     }
@@ -1049,8 +1138,8 @@ fn main() {
     // big sizes: tail families at the threshold found for the small ones
     let big: &[u64] = if thorough { &[10_000, 100_000, 1_000_000] } else { &[10_000, 100_000] };
     let mut tasks = vec![];
-    for f in families::STACK_FAMILIES.iter().filter(|f| f.tail) {
-        if let Some(v) = thr.get(f.name) {
+    for f in fams.iter().filter(|f| f.tail) {
+        if let Some(v) = thr.get(&f.name) {
             let t_max = v.iter().filter(|x| x.0 >= 2).map(|x| x.1).max().unwrap_or(0);
             for &n in big {
                 tasks.push(json!({"t": "stack", "family": f.name, "n": n, "threshold": t_max, "seed": seed}));
@@ -1067,8 +1156,8 @@ fn main() {
         }
     }
     // the oracle for "tail calls run in constant stack" / "non-tail recursion is bounded by the limit"
-    for f in families::STACK_FAMILIES {
-        let v = match thr.get(f.name) {
+    for f in &fams {
+        let v = match thr.get(&f.name) {
             Some(v) => v,
             None => continue,
         };
@@ -1080,12 +1169,12 @@ fn main() {
             let p1 = steady.iter().map(|x| x.2).max().unwrap_or(0);
             if t0 != t1 || p0 != p1 {
                 out.oracle_fail(
-                    &format!("tail-call-grows:{}", f.name),
+                    &format!("tail-call-grows:{}", f.name.split(':').next().unwrap()),
                     &format!("stack need of the tail-recursive family {} depends on the iteration count: (n, threshold, peak frames) = {:?}", f.name, v),
                     json!({"task": "stack", "family": f.name, "n": steady.last().map(|x| x.0)}),
                 );
             }
-            out.count(&format!("tail-constant:{}", f.name));
+            out.count(&format!("tail-constant:{}", f.name.split(':').next().unwrap()));
             out.sample(json!({"family": f.name, "n_threshold_peakframes": v}));
         } else {
             // deeper recursion must need more stack
@@ -1094,7 +1183,7 @@ fn main() {
             for p in w.windows(2) {
                 if p[1].1 <= p[0].1 && p[1].0 > p[0].0 {
                     out.oracle_fail(
-                        &format!("nontail-not-growing:{}", f.name),
+                        &format!("nontail-not-growing:{}", f.name.split(':').next().unwrap()),
                         &format!("deeper recursion does not need more stack: {:?}", w),
                         json!({"task": "stack", "family": f.name, "n": p[1].0}),
                     );
